@@ -264,6 +264,15 @@ func ScanRepositoryUsingGraph(
 	}
 	progressMeter.Done()
 
+	// We have read all of the objects that we requested. Make sure
+	// that there aren't any more, and (more importantly) collect the
+	// exit status of the `git cat-file` command:
+	if _, ok, err := objectIter.Next(); err != nil {
+		return HistorySize{}, err
+	} else if ok {
+		return HistorySize{}, errors.New("more objects read than expected")
+	}
+
 	err = <-errChan
 	if err != nil {
 		return HistorySize{}, err
